@@ -870,12 +870,34 @@ class ChainOracles(WalkOracles):
         jr = {((right_first[i],), (right_first[i + 1],)) for i in range(n - 1)}
         return [(left_first, jl), (right_first, jr)], allowed
 
+    def avail_ops(self, it, fn, args):
+        """BitSet::remove / insert on the availability set, exactly: the answer says whether the element was / was not in the set"""
+        path = fn.get("path", "")
+        name = path.split("::")[-1]
+        if name in ("remove", "insert") and (path.endswith("BitSet::" + name) or "bit_set" in path.split("<")[0]) and len(args) == 2:
+            x = self.id_of(args[1])
+            if x is None:
+                raise Undecided("%s of an unknown element on the availability set" % name)
+            was_in = x not in self.removed
+            if name == "remove":
+                if was_in:
+                    self.removed.append(x)
+                self.log.append(("remove", x))
+                return mkbool(was_in)
+            self.removed = [y for y in self.removed if y != x]
+            self.log.append(("insert", x))
+            return mkbool(not was_in)
+        return NotImplemented
+
     def on_call(self, it, fn, args, dest_ty, term, caller):
         path = fn.get("path", "")
         name = path.split("::")[-1]
         tr = fn.get("trait", "")
         if is_print_call(fn):
             return Opaque(dest_ty, {"fmt"})
+        r_ = self.avail_ops(it, fn, args)
+        if r_ is not NotImplemented:
+            return r_
         if path.startswith("graph::Node::<") or path.startswith("graph::Node<"):
             n = recv(it, args[0])
             x = self.id_of(n.fields[0]) if isinstance(n, Adt) and n.fields else None
@@ -1052,6 +1074,9 @@ class KmerChainOracles(ChainOracles):
         tr = fn.get("trait", "")
         if is_print_call(fn):
             return Opaque(dest_ty, {"fmt"})
+        r_ = self.avail_ops(it, fn, args)
+        if r_ is not NotImplemented:
+            return r_
         if name == "get_key" and "BoomHashMap" in path:
             return some(Ref(Cell(kmer_v("seed"), "seed")))
         if name == "get_kmer_data" or (name in ("get", "get_mut") and "BoomHashMap" in path):
